@@ -210,6 +210,67 @@ pub fn main(args: &[String]) {
             }
         }
     }
+    res.extend(check_cwd());
     write_ndjson(&args[1], &res);
     println!("{}", json!({"cases": rows.len(), "runs": runs, "mismatches": res.len()}));
+}
+
+/// `fixedwindow-cwd-child <dir_a> <dir_b> <variant>`: the working directory is process state, hence a process of its own.
+/// A pattern that is a relative path denotes names below the working directory of the moment of the roll (that is
+/// what a relative path means to every file system call; FixedWindow.tla's names are whatever the pattern denotes
+/// then).  The roller is built in A, the process moves to B - a daemon does after reading its configuration - and rolls
+/// three times there: the window is in B and A holds nothing.
+pub fn cwd_child(args: &[String]) {
+    let (a, b) = (Path::new(&args[0]), Path::new(&args[1]));
+    let variant: usize = args[2].parse().unwrap();
+    std::env::set_current_dir(a).unwrap();
+    std::env::set_var("LV_CWD_LEAF", "app");
+    let pattern = ["archive/app.{}.log", "app.{}.log", "./deep/er/$ENV{LV_CWD_LEAF}.{}.log"][variant % 3];
+    let built = catch(|| FixedWindowRoller::builder().base(1).build(pattern, 2));
+    let roller = match built {
+        Ok(Ok(r)) => r,
+        other => {
+            println!("{}", json!({"problem": {"what": "build", "result": format!("{:?}", other.map(|r| r.map(|_| ()).map_err(|e| e.to_string())))}}));
+            return;
+        }
+    };
+    std::env::set_current_dir(b).unwrap();
+    for k in 1..=3 {
+        // (the active file is named relatively in two of three variants, absolutely in the third)
+        let active = if variant % 2 == 0 { Path::new("active.log").to_path_buf() } else { b.join("active.log") };
+        fs::write(&active, format!("r{}", k)).unwrap();
+        match catch(|| roller.roll(&active)) {
+            Ok(Ok(())) => {}
+            other => {
+                println!("{}", json!({"problem": {"what": "roll", "k": k, "result": format!("{:?}", other.map(|r| r.map_err(|e| e.to_string())))}}));
+                return;
+            }
+        }
+    }
+    let text = |m: BTreeMap<String, Vec<u8>>| -> BTreeMap<String, String> { m.into_iter().map(|(k, v)| (k, String::from_utf8_lossy(&v).to_string())).collect() };
+    let (in_a, in_b) = (text(snapshot(a, false, false)), text(snapshot(b, false, false)));
+    let names = |i: usize| pattern.trim_start_matches("./").replace("$ENV{LV_CWD_LEAF}", "app").replace("{}", &i.to_string());
+    let want_b: BTreeMap<String, String> = [(names(1), "r3".to_string()), (names(2), "r2".to_string())].into_iter().collect();
+    if !in_a.is_empty() || in_b != want_b {
+        println!("{}", json!({"problem": {"what": "a relative pattern after a change of the working directory", "pattern": pattern,
+                                          "in_the_directory_of_the_build": in_a, "in_the_working_directory": in_b, "expected_in_the_working_directory": want_b}}));
+    } else {
+        println!("{}", json!({"problem": null}));
+    }
+}
+
+fn check_cwd() -> Vec<Value> {
+    let exe = std::env::current_exe().unwrap();
+    let mut out = vec![];
+    for variant in 0..6 {
+        let (a, b) = (Scratch::new("cwda"), Scratch::new("cwdb"));
+        let o = std::process::Command::new(&exe).arg("fixedwindow-cwd-child").arg(a.path()).arg(b.path()).arg(variant.to_string()).output();
+        let line = o.as_ref().ok().map(|o| String::from_utf8_lossy(&o.stdout).lines().last().unwrap_or("").to_string()).unwrap_or_default();
+        match serde_json::from_str::<Value>(&line) {
+            Ok(v) if v["problem"].is_null() => {}
+            Ok(v) => out.push(json!({"case": "cwd", "variant": variant, "mismatch": v["problem"]})),
+            Err(_) => out.push(json!({"case": "cwd", "variant": variant, "mismatch": {"what": "child failed", "status": format!("{:?}", o.map(|o| o.status))}})),
+        }
+    }
+    out
 }
